@@ -91,6 +91,9 @@ type Config struct {
 	TraceOn    bool
 	Race       bool
 	PipeCap    int
+	// NoEarlyTimers: the clock advances only when nothing is runnable (an idle
+	// machine: every goroutine that can run does so before time passes)
+	NoEarlyTimers bool
 	TimerPick  float64 // probability (record mode) of firing the next timer although goroutines are runnable
 	Env        map[string]string
 	PCTChanges int
@@ -436,6 +439,9 @@ func (s *Sim) Run(main func()) {
 			}
 			s.fireNextTimer()
 			continue
+		}
+		if s.Cfg.NoEarlyTimers {
+			timer = false
 		}
 		idx := s.pick(r, timer)
 		if idx >= len(r) {
